@@ -64,3 +64,19 @@ Theorem C06_udp_port_model_is_the_source :
   (forall rs ls o a b, g_NewUDPSerialPort rs ls o a b = Val (udp_new rs ls o a b)).
 Proof. exact udp_port_agrees. Qed.
 Print Assumptions C06_udp_port_model_is_the_source.
+
+(* and across the two layers: frames built by the constructor, one per write, arrive at the port facing the writer whole,
+   unchanged and in order when each is read with 4096 bytes of room - every identifier, every payload of 0..2048 bytes *)
+Require Import Proofs.LinkBytes Proofs.UdpFrames.
+Theorem C06_constructed_frames_arrive_over_udp : forall (l : list (N * bytes)) t0 t1 side,
+  Forall (fun mp => (fst mp < 256)%N /\ wf_bytes (snd mp) /\ (length (snd mp) <= 2048)%nat) l ->
+  let fs := map (fun mp => new_message (fst mp) (snd mp)) l in
+  urun t0 t1 unet0 (writes side fs ++ reads (negb side) 4096 (length fs)) =
+  map (fun p => UWrote (Z.of_nat (length p)) None) fs ++ map (fun p => UGot p None) fs.
+Proof.
+  intros l t0 t1 side H. apply frames_arrive_over_udp; apply Forall_forall; intros f Hf;
+    apply in_map_iff in Hf; destruct Hf as (mp & <- & Hin); rewrite Forall_forall in H; destruct (H mp Hin) as (Hm & Hb & Hl).
+  - apply new_message_bytes; assumption.
+  - exact (proj1 (new_message_wf (fst mp) (snd mp) Hl)).
+Qed.
+Print Assumptions C06_constructed_frames_arrive_over_udp.
